@@ -45,6 +45,7 @@ import CoreDhcp.Props.GenFileSetup
 import CoreDhcp.Props.GenRangeSetup
 import CoreDhcp.Props.GenMainReg
 import CoreDhcp.Props.Server
+import CoreDhcp.Props.GenConfigLoad
 open CoreDhcp
 #print axioms C20_offset_exact
 #print axioms C20_offset_symm
@@ -472,3 +473,20 @@ open CoreDhcp
 #print axioms Server.optChain6
 #print axioms SERVER_builtin_chain_is_sys4
 #print axioms SERVER_builtin_chain_is_sys6
+#print axioms GEN_configload_load_eq
+#print axioms GEN_configload_tail_eq
+#print axioms ConfigLoad.settingsFor_explicit
+#print axioms ConfigLoad.settingsFor_search
+#print axioms CONFIGLOAD_asked
+#print axioms CONFIGLOAD_type_is_yaml_always
+#print axioms CONFIGLOAD_explicit_path_verbatim
+#print axioms CONFIGLOAD_search_order
+#print axioms CONFIGLOAD_reads_once_with_these_settings
+#print axioms CONFIGLOAD_read_error_aborts
+#print axioms CONFIGLOAD_parses_what_was_read
+#print axioms CONFIGLOAD_fresh_instance
+#print axioms CONFIGLOAD_tail_is_unit_config
+#print axioms CONFIGLOAD_load_is_C18_model
+#print axioms CONFIGLOAD_C18
+#print axioms CONFIGLOAD_never_panics
+#print axioms CONFIGLOAD_main_reads_conf_flag
